@@ -1,10 +1,14 @@
 """C07 — reference tallies are exact for every refgroup hierarchy; the report is
 produced without failure however deeply the groups nest."""
 import json
+import os
 import random
+import shutil
+import subprocess
 
 import refcheck as RC
 import scancheck as SC
+import scenario as S
 import vlib
 
 LEVEL = "proof"
@@ -98,6 +102,82 @@ def run(ctx):
                 res.violations.append(vlib.Violation(
                     "the tally shown for user-defined refgroup '%s' is not the number of references satisfying its rules" % sym, inp,
                     expected=want, observed=got, cls="reserved-refgroup-name"))
+        # symbolic references below refs/ (refs/remotes/origin/HEAD after a clone, a moving alias of a tag) in a real
+        # repository: a reference is tallied under the groups ITS OWN name satisfies, whatever it points at
+        nsym = 0
+        for it in range(8 if quick else 80):
+            refs = RC.real_safe_refs(RC.gen_refs(rng))
+            aliases = []
+            for src, pat in ((b"refs/remotes/origin/HEAD", b"refs/remotes/"), (b"refs/heads/latest", b"refs/tags/"),
+                             (b"refs/tags/current", b"refs/heads/"), (b"refs/foo/alias", b"refs/")):
+                tg = [n for n in refs if n.startswith(pat) and n != src]
+                if tg and src not in refs and rng.random() < 0.7 and not any(n.startswith(src + b"/") or src.startswith(n + b"/") for n in refs):
+                    aliases.append((src, rng.choice(tg)))
+            if not aliases:
+                continue
+            defs, cfg = RC.gen_groupdefs(rng)
+            if rng.random() < 0.6:
+                defs = list(defs) + [(sym, ents) for sym, ents in (("remotes.heads", [("i", b"refs/remotes/origin/HEAD")]),
+                                                                   ("remotes.dev", [("i", b"refs/remotes/origin/main")]))
+                                     if sym not in [x for x, _ in defs]]
+                cfg = RC.defs_to_cfg(defs)
+            cli, toks = RC.gen_options(rng, defs, refs + [a for a, _ in aliases], maxlen=2)
+            s, c = RC.base_scenario()
+            for n in refs:
+                s.refs.append((n, c))
+            s.config = [(k, v) for k, v in cfg]
+            s.compute()
+            d = os.path.join(eng.scratch, "symref%d" % it)
+            try:
+                gitdir = s.materialise(d)
+            except Exception:
+                continue
+            ok = True
+            for src, tgt in aliases:
+                ok = ok and subprocess.run(["git", "--git-dir", gitdir, "symbolic-ref", src.decode(), tgt.decode()], env=S.clean_env(),
+                                           stdout=subprocess.DEVNULL, stderr=subprocess.DEVNULL).returncode == 0
+            if not ok:
+                continue
+            allrefs = sorted(refs + [a for a, _ in aliases])
+            rc, out, err = S.run_sizer(ctx["bins"]["sizer"], d, ["--json", "--no-progress", "--show-refs"] + cli)
+            line = "refs 1 %s O %s R %s" % (" ".join(RC.enc_defs(defs)), " ".join(toks), " ".join(vlib.hx(n) for n in allrefs))
+            m = eng.model([" ".join(line.split())])[0]
+            cats, rows = RC.parse_model_refs(m)
+            inp = {"cli": cli, "config": cfg, "refs": [n.decode("latin1") for n in refs], "symbolic_refs": [(a.decode(), b.decode()) for a, b in aliases]}
+            res.case(("symref", tuple(allrefs), tuple(cli), tuple(cfg)), True)
+            nsym += 1
+            if isinstance(cats, str):
+                if rc == 0:
+                    res.violations.append(vlib.Violation("model rejects the configuration (%s) but the run succeeded" % cats, inp, nofail=True))
+                shutil.rmtree(d, ignore_errors=True)
+                continue
+            if rc != 0:
+                res.violations.append(vlib.Violation("run failed: %s" % err[:200].decode("latin1"), inp, expected="exit 0"))
+                shutil.rmtree(d, ignore_errors=True)
+                continue
+            j = json.loads(out)
+            tall = {}
+            for _, (w, syms) in zip(allrefs, cats):
+                for s_ in syms:
+                    k = s_.decode("utf-8", "replace")
+                    tall[k] = tall.get(k, 0) + 1
+            marks = {}
+            for l in err.split(b"\n"):
+                if l.startswith(b"+ "):
+                    marks[l[2:]] = True
+                elif l.startswith(b"  "):
+                    marks[l[2:]] = False
+            if j["reference_count"] != len(allrefs) or j["reference_groups"] != tall:
+                res.violations.append(vlib.Violation("with symbolic references below refs/ the tallies differ from the declarative membership of each reference's own name", inp,
+                                                     expected={"reference_count": len(allrefs), "reference_groups": tall},
+                                                     observed={"reference_count": j["reference_count"], "reference_groups": j["reference_groups"]}))
+            want = {n: cw[0] for n, cw in zip(allrefs, cats)}
+            if marks != want:
+                res.violations.append(vlib.Violation("with symbolic references below refs/ the references listed / selected differ from the model", inp,
+                                                     expected={k.decode("latin1"): v for k, v in want.items()},
+                                                     observed={k.decode("latin1"): v for k, v in marks.items()}))
+            shutil.rmtree(d, ignore_errors=True)
+        res.coverage_extra["symbolic_reference_cases"] = nsym
     finally:
         eng.close()
     res.coverage_extra["input_distribution"] = {"group_nesting_depth_histogram": depth_hist}
